@@ -479,7 +479,7 @@ def rewrite_derive(attr_text):
 
 SECTION_KW = ("ret", "requires", "ensures", "decreases", "recommends", "entry", "loop", "before", "after",
               "subst", "sigsubst", "attr", "name", "opens", "noprove", "unwind", "mono", "selftype", "ord", "header", "nostructural", "deadtail",
-              "closure", "capture", "cret", "dropclosure", "callargs", "macro", "macroarg")
+              "closure", "capture", "cret", "dropclosure", "callargs", "macro", "macroarg", "osubst")
 
 
 class FnDirective:
@@ -557,7 +557,7 @@ def _sec_line(d, t):
         elif kw in ("before", "after"):
             mm = re.match(r'"((?:[^"\\]|\\.)*)"\s*(.*)$', rest)
             arg, text = mm.group(1).replace('\\"', '"'), mm.group(2)
-        elif kw in ("subst", "sigsubst", "macroarg"):
+        elif kw in ("subst", "sigsubst", "macroarg", "osubst"):
             mm = re.match(r'"((?:[^"\\]|\\.)*)"\s*=>\s*"((?:[^"\\]|\\.)*)"\s*$', rest)
             if not mm:
                 raise ExtractError("bad subst: " + t)
@@ -744,6 +744,11 @@ def splice_body(body, d, em, target):
             raise ExtractError("subst anchor lost in %s: %r" % (target, a))
         body = body.replace(a, b)
         em.substs.append({"fn": target, "where": "body", "from": a, "to": b})
+    for (a, b) in d.get("osubst"):
+        # optional substitution: applied when the text occurs (annotations for forms the code may also take)
+        if a in body:
+            body = body.replace(a, b)
+            em.substs.append({"fn": target, "where": "body", "from": a, "to": b})
     body, applied = rewrite_macros(body)
     em.rules |= applied
     lines = body.split("\n")
